@@ -20,7 +20,19 @@ true of a freshly created working directory), staging by extraction
 * creates or modifies only locations under `dest`,
 * leaves every location outside `dest` exactly as it was, and
 * re-establishes `Safe` (so the statement composes over any number of extract stagings),
-whether the archive is accepted, rejected, or extraction stops with an error half-way. -/
+whether the archive is accepted, rejected, or extraction stops with an error half-way.
+
+**Hypothesis gap (known finding `C18-extract-through-staged-link`).**  `Safe` is not a formality: `Job.stageIn`
+stages all references of a component into the same working directory, and a reference staged with `:link`
+(`stageLink`) leaves an absolute link there.  That state is not `Safe`
+(`Witness.C18.linked_state_not_safe`), and an archive extracted afterwards with a member `<link name>/evil`
+is accepted by the repaired check and written through the link, outside `dest`
+(`Witness.C18.link_then_extract_escapes`, also via a descending archive link:
+`link_then_extract_escapes_via_descending_member_link`).  The theorem therefore covers working directories that
+hold only what copy staging and earlier (checked) extractions put there — `copy_confined` and the third conjunct
+keep `Safe` — not directories that also hold link-staged inputs.  The harness generates exactly those states
+(real `StageReference(…:link)` before the archive) and reports the escapes under the slug
+`extract-writes-through-staged-link`. -/
 theorem extract_confined (dest : Path) (fs : Fs) (ms : List Member) (hs : Safe dest fs) :
     (∀ p ∈ (stageExtractFixed dest ⟨fs, []⟩ ms).1.log, dest <:+ p) ∧
     (∀ q, ¬ dest <:+ q → (stageExtractFixed dest ⟨fs, []⟩ ms).1.fs.get q = fs.get q) ∧
@@ -93,6 +105,52 @@ theorem escaping_link_rejected (dest : Path) (ms : List Member) (n t : RawPath)
     · have := List.all_eq_true.mp hc _ hm
       simp [memberOk] at this
       simp_all
+
+/-- **link targets are judged by their text, never by normalisation.**  The repaired check is *exactly* the
+textual-normalisation check (`checkNormpath`: link target relative and, after `os.path.normpath` against the
+directory holding the link, still under `dest`) together with "no link target has a `..` component or is
+absolute" — for every archive.  So the two checks differ precisely on archives with a link member whose target
+has a `..` component that normalises away; `Witness.C18.normpath_link_rule_unsound_*` show that on those the
+textual rule lets chains of links (members placed through earlier link members) out of `dest`. -/
+theorem checkFixed_eq_normpath_and_descending (dest : Path) (ms : List Member) :
+    checkFixed dest ms = (checkNormpath dest ms && ms.all linkTargetDescending) := by
+  unfold checkFixed checkNormpath
+  induction ms with
+  | nil => rfl
+  | cons m r ih =>
+    simp only [List.all_cons, ih, memberOk_eq dest m]
+    cases memberOkNormpath dest m <;> cases linkTargetDescending m <;> simp
+
+/-- everything the repaired check accepts, the textual-normalisation check accepts as well (the relaxation is
+a relaxation), … -/
+theorem checkFixed_imp_checkNormpath (dest : Path) (ms : List Member) (h : checkFixed dest ms = true) :
+    checkNormpath dest ms = true := by
+  rw [checkFixed_eq_normpath_and_descending] at h
+  exact (Bool.and_eq_true_iff.mp h).1
+
+/-- … and on archives whose link members all have descending targets (in particular archives without link
+members) the two checks agree, so `extract_confined` transfers: extraction guarded by the textual rule is
+confined **provided** no link target has a `..` component — for chains of any depth, links placed through
+earlier links, hard links to earlier links included. -/
+theorem normpath_confined_when_targets_descend (dest : Path) (fs : Fs) (ms : List Member) (hs : Safe dest fs)
+    (hd : ms.all linkTargetDescending = true) :
+    (∀ p ∈ (stageExtractNormpath dest ⟨fs, []⟩ ms).1.log, dest <:+ p) ∧
+    (∀ q, ¬ dest <:+ q → (stageExtractNormpath dest ⟨fs, []⟩ ms).1.fs.get q = fs.get q) ∧
+    Safe dest (stageExtractNormpath dest ⟨fs, []⟩ ms).1.fs := by
+  have he : stageExtractNormpath dest ⟨fs, []⟩ ms = stageExtractFixed dest ⟨fs, []⟩ ms := by
+    unfold stageExtractNormpath stageExtractFixed
+    rw [checkFixed_eq_normpath_and_descending, hd, Bool.and_true]
+  rw [he]
+  exact extract_confined dest fs ms hs
+
+/-- a link member placed *through* an earlier link member (its name continues the name of the earlier link)
+with a `..` in its target makes the archive offending, however confined the target looks textually: the
+second link of the chain `a/s -> ..`, `a/s/esc -> ..` is refused although `normpath("a/s/..") = "a"` -/
+theorem through_link_member_rejected (dest : Path) (pre post : List Member) (n : RawPath) (through : List Seg)
+    (t1 t2 : RawPath) (h : allNames t2.segs = false) :
+    checkFixed dest (pre ++ [Member.sym n t1, Member.sym ⟨n.abs, n.segs ++ through⟩ t2] ++ post) = false :=
+  escaping_link_rejected dest _ ⟨n.abs, n.segs ++ through⟩ t2
+    (Or.inl (by simp)) (by simp [descending, h])
 
 /-- **copy_link_confined**, copy half: copy staging of a file or directory writes `dest/basename(ref)` (and
 below it) only — in a `Safe` working directory also when that name already exists as a link. -/
@@ -210,6 +268,29 @@ example :
     checkFixed exDest ms = true ∧ (stageExtractFixed exDest ⟨exFs, []⟩ ms).2 = none ∧
     (stageExtractFixed exDest ⟨exFs, []⟩ ms).1.log.length = 7 ∧
     (stageExtractFixed exDest ⟨exFs, []⟩ ms).1.fs.get [['y'], ['d'], ['w'], ['i']] = some (Node.file [['y'], ['d'], ['w'], ['i']]) := by
+  decide
+
+/-- links placed through earlier links, a hard link to an earlier link: with descending targets such a chain
+is accepted by both checks and extracted — `l -> d`, `l/m -> e` is created as `d/m`, `l/m/y` lands in `d/e/y`,
+`h` becomes a second name of the link `d/m` -/
+example :
+    let ms := [Member.dir ⟨false, [Seg.name ['d'], Seg.name ['e']]⟩,
+               Member.sym ⟨false, [Seg.name ['l']]⟩ ⟨false, [Seg.name ['d']]⟩,
+               Member.sym ⟨false, [Seg.name ['l'], Seg.name ['m']]⟩ ⟨false, [Seg.name ['e']]⟩,
+               Member.file ⟨false, [Seg.name ['l'], Seg.name ['m'], Seg.name ['y']]⟩,
+               Member.hard ⟨false, [Seg.name ['h']]⟩ ⟨false, [Seg.name ['l'], Seg.name ['m']]⟩]
+    checkFixed exDest ms = true ∧ checkNormpath exDest ms = true ∧ ms.all linkTargetDescending = true ∧
+    (stageExtractNormpath exDest ⟨exFs, []⟩ ms).2 = none ∧
+    (stageExtractNormpath exDest ⟨exFs, []⟩ ms).1.fs.get [['m'], ['d'], ['w'], ['i']] = some (Node.link false [Seg.name ['e']]) ∧
+    (stageExtractNormpath exDest ⟨exFs, []⟩ ms).1.fs.get [['y'], ['e'], ['d'], ['w'], ['i']] =
+      some (Node.file [['y'], ['e'], ['d'], ['w'], ['i']]) ∧
+    (stageExtractNormpath exDest ⟨exFs, []⟩ ms).1.fs.get [['h'], ['w'], ['i']] = some (Node.link false [Seg.name ['e']]) := by
+  decide
+
+/-- the two checks really differ: `lib/x -> ../lib64/x` is textually confined and refused by the repaired check -/
+example :
+    let ms := [Member.sym ⟨false, [Seg.name ['l'], Seg.name ['x']]⟩ ⟨false, [Seg.up, Seg.name ['k'], Seg.name ['x']]⟩]
+    checkNormpath exDest ms = true ∧ checkFixed exDest ms = false ∧ ms.all linkTargetDescending = false := by
   decide
 
 /-- parsing of names as they appear in archives -/
